@@ -8,7 +8,26 @@ import MainlineModel
 open Mainline
 
 structure DState where
-  dummy : Unit := ()
+  closest : ClosestNodes := { target := ⟨[]⟩ }
+  rt : RoutingTable := { id := ⟨[]⟩ }
+  now : Nat := 0
+
+def parseAddr (s : String) : Option Addr :=
+  match s.splitOn ":" with
+  | [ip, port] => match ip.toNat?, port.toNat? with
+    | some ip, some port => some ⟨UInt32.ofNat ip, UInt16.ofNat port⟩
+    | _, _ => none
+  | _ => none
+
+def showAddr (a : Addr) : String := s!"{a.ip.toNat}:{a.port.toNat}"
+def showNode (n : Node) : String := bytesToHex n.id.bytes ++ "@" ++ showAddr n.addr
+def showNodes (ns : List Node) : String :=
+  if ns.isEmpty then "-" else ",".intercalate (ns.map showNode)
+
+def mkNode (idh addr : String) (now : Nat) : Option Node :=
+  match hexToBytes idh, parseAddr addr with
+  | some i, some a => some { id := ⟨i⟩, addr := a, lastSeen := now }
+  | _, _ => none
 
 def showOrd : Ordering → String
   | .lt => "lt" | .eq => "eq" | .gt => "gt"
@@ -23,7 +42,58 @@ def showIdRes : Except DecodeIdError Id → String
 
 def step (st : DState) (line : String) : DState × String :=
   match line.trimAscii.toString.splitOn " " with
+  | ["case", n, "closest", t] => (match hx t with
+      | some t => ({ closest := { target := ⟨t⟩ } }, "case " ++ n)
+      | none => (st, "bad-op"))
+  | ["case", n, "rtable", t] => (match hx t with
+      | some t => ({ rt := { id := ⟨t⟩ } }, "case " ++ n)
+      | none => (st, "bad-op"))
   | "case" :: n :: _ => ({}, "case " ++ n)
+  -- closest stream
+  | ["add", idh, addr] => (match mkNode idh addr st.now with
+      | none => (st, "bad-op")
+      | some n =>
+        if st.rt.id.bytes.isEmpty then
+          let c' := st.closest.add n
+          let r := if c'.nodes.length == st.closest.nodes.length + 1 then
+              match c'.nodes.findIdx? (fun e => e.id == n.id && e.addr == n.addr) with
+              | some p => s!"ins@{p}"
+              | none => "noop"
+            else "noop"
+          ({ st with closest := c' }, r)
+        else
+          let (rt', r) := st.rt.add n st.now
+          ({ st with rt := rt' }, toString r))
+  | ["nodes"] =>
+      if st.rt.id.bytes.isEmpty then (st, showNodes st.closest.nodes)
+      else (st, if st.rt.nodes.isEmpty then "-" else
+        ",".intercalate (st.rt.nodes.map (fun n => showNode n ++ "+" ++ toString n.lastSeen)))
+  | ["len"] => (st, toString st.closest.nodes.length)
+  | ["subnets"] => (st, toString st.closest.subnetsCount)
+  | ["tus", _est, edk, avg] => (st, match edk.toNat?, avg.toNat? with
+      | some edk, some avg => toString (st.closest.takeUntilSecure edk avg).length
+      | _, _ => "bad-op")
+  -- rtable stream
+  | ["adv", ns] => (match ns.toNat? with
+      | some ns => ({ st with now := st.now + ns }, toString (st.now + ns))
+      | none => (st, "bad-op"))
+  | ["remove", idh] => (match hx idh with
+      | some i => ({ st with rt := st.rt.remove ⟨i⟩ }, "ok")
+      | none => (st, "bad-op"))
+  | ["rekey", idh] => (match hx idh with
+      | some i =>
+        let rt' := st.rt.resetId ⟨i⟩ st.now
+        ({ st with rt := rt' }, s!"{st.rt.nodes.length}->{rt'.nodes.length}")
+      | none => (st, "bad-op"))
+  | ["buckets"] => (st,
+      if st.rt.buckets.isEmpty then "-" else
+      ",".intercalate (st.rt.buckets.map (fun b =>
+        toString b.1 ++ ":" ++ "/".intercalate (b.2.map (fun n => bytesToHex (n.id.bytes.take 4))))))
+  | ["size"] => (st, s!"{st.rt.size} {st.rt.isEmpty}")
+  | ["boot"] => (st, toString (st.rt.toBootstrap st.now).length)
+  | ["closest", t] => (st, match hx t with
+      | some t => showNodes (st.rt.closest ⟨t⟩)
+      | none => "bad-op")
   -- hash stream
   | ["himm", v] => (st, match hx v with
       | some v => bytesToHex (sha1 (natToAscii v.length ++ [58] ++ v))
